@@ -515,6 +515,9 @@ def standard_check(ctx, plug):
         extra_n = plug.gen_ndebug(ctx, ctx.seed, ctx.tier) if hasattr(plug, "gen_ndebug") else []
         # cases whose expected outcome is an assertion failure have no meaning in this configuration
         keep = [i for i, c in enumerate(cases) if not hasattr(plug, "ndebug_case") or plug.ndebug_case(c, model[i])]
+        limit = getattr(plug, "NDEBUG_SAMPLE", None)       # slow drivers: an evenly spread sample of the cases
+        if limit and ctx.tier == "quick" and len(keep) > limit:
+            keep = [keep[(j * len(keep)) // limit] for j in range(limit)]
         cases_n = [cases[i] for i in keep] + extra_n
         t_n = time.time()
         impl_n = plug.run_impl(ctx, cases_n)
